@@ -50,6 +50,10 @@ class Hang(Exception):
     """the fake channel was asked to block forever (no deadline, nothing scripted)"""
 
 
+class Spin(Exception):
+    """the code under test keeps polling at one virtual instant: a busy loop that only real time passing would end"""
+
+
 class Clock(object):
     """stands in for the `time` module inside rpyc.lib"""
 
@@ -88,6 +92,7 @@ class Chan(object):
         self.conn = None
         self.res = None
         self.n_sent = 0
+        self.spin = 0
 
     def poll(self, timeout):
         now = self.clock.tick
@@ -104,6 +109,12 @@ class Chan(object):
         if a is not None and (a < dl or (a == dl and self.tie)):
             self.clock.tick = a
             return True
+        if dl == now:
+            self.spin += 1
+            if self.spin > 300:
+                raise Spin()
+        else:
+            self.spin = 0
         self.clock.tick = int(dl) if dl == int(dl) else dl
         return False
 
